@@ -103,9 +103,7 @@ NOTES = ('Every check re-extracts the functions it depends on from /repo\'s work
          'exit 0 held, exit 1 VIOLATION, exit 2 undecided (lost anchor / construct the verifier rejects / timeout) - never an alarm.')
 PENDING = 'within reach of the technique (DESIGN.md section 5) but its unit is not built yet; not claimed until it runs green with guards'
 NOT_APPLICABLE = {
-    'C01': PENDING, 'C02': PENDING, 'C03': PENDING, 'C06': PENDING, 'C07': PENDING, 'C09': PENDING, 'C10': PENDING, 'C11': PENDING,
-    'C13': PENDING, 'C15': PENDING, 'C20': PENDING,
-    'C08': 'shutdown: task joins, channel closure, socket release and runtime teardown at every point in time; no function-level contract expresses it and neither verifier models tokio tasks or Drop ordering (DESIGN.md section 6)',
+    'C01': PENDING, 'C02': PENDING, 'C03': PENDING, 'C09': PENDING, 'C10': PENDING,     'C13': PENDING,     'C08': 'shutdown: task joins, channel closure, socket release and runtime teardown at every point in time; no function-level contract expresses it and neither verifier models tokio tasks or Drop ordering (DESIGN.md section 6)',
     'C12': 'cancellation: when a remote handler is dropped relative to a caller\'s cancellation and QUIC stream credit return are scheduling + quinn flow control; nothing in reach decides a sentence of it (section 6)',
     'C14': 'network names: decided inside rustls SNI resolver / webpki name matching reached through iterator+closure pipelines Verus rejects and Kani cannot execute (X.509 parsing, anyhow) (section 6)',
     'C16': 'routing: matching is the third-party matchit trie; router construction uses dyn Any downcasts, boxed trait objects, BTreeMap: outside both verifiers (section 6)',
